@@ -110,31 +110,40 @@ def target_shape(shape, index):
         return None
 
 
-def value_kinds(tshape, level, self_ok=False):
-    """value-kind literals applicable to a selection of shape tshape.  level: 0 = {scalar, exact}, 1 = common kinds,
-    2 = everything incl. a dask value with EVERY chunking"""
+def value_kinds(tshape, mode, self_ok=False):
+    """value-kind literals applicable to a selection of shape tshape.
+    mode: 'nd' = exact ndarray only, 'scnd' = {scalar, exact}, 'lite' = {scalar, exact, dask value in 1-element chunks, self},
+    'std' = the common kinds, 'full' = everything incl. a dask value with EVERY chunking"""
     if tshape is None:
         return ["sc"]
     if tshape == ():
         # all-integer index: only 0-d values (NumPy deprecates ndim > 0 values here)
-        return ["sc"] if level == 0 else ["sc", "f", "z0", "dz0"]
+        return ["sc", "f", "z0", "dz0"] if mode in ("std", "full") else ["sc"]
+    if mode == "nd":
+        return ["nd"]
     out = ["sc", "nd"]
-    if level == 0:
+    if mode == "scnd":
         return out
-    out += ["b1", "x1"]
     nd = len(tshape)
+    ones = tuple((1,) * s if s else (0,) for s in tshape)
+    whole = tuple((s,) for s in tshape)
+    if mode == "lite":
+        out.append(("da", ones))
+        if self_ok and nd == 1:
+            out.append("self")
+        return out
+    out.append("b1")
+    if 0 in tshape:
+        # empty selection: nothing is assigned, one array kind per dimensionality is enough
+        return out + (["x1"] if nd == 1 else [])
+    out.append("x1")
     if nd >= 2:
-        if tshape[0] >= 1:
-            out.append("row")
+        out.append("row")
         for ax in range(nd):
             if tshape[ax] >= 2:
                 out.append(("bc", ax))
-    ones = tuple((1,) * s if s else (0,) for s in tshape)
-    whole = tuple((s,) for s in tshape)
-    if level == 1:
+    if mode == "std":
         out.append(("da", ones))
-        if whole != ones:
-            out.append(("da", whole))
     else:
         out.append("f")
         out.append("dz0")
@@ -185,21 +194,59 @@ def make_value(vk, tshape, x, d):
 
 
 # ----------------------------------------------------------------------------------------------- enumeration
+# Bounds per tier.  Dask-array indices cost 7-20 ms per case (several graph layers), NumPy indices ~1-2 ms: the dask-index
+# alphabets are therefore smaller in the quick tier.  Everything inside a stated bound is enumerated exhaustively.
+def slice_mode(n, tier):
+    if tier == "quick":
+        return "full" if n <= 3 else ("lite" if n == 4 else "nd")
+    return "full" if n <= 5 else ("std" if n == 6 else "lite")
+
+
+def vec_plan(n, vkind_, tier):
+    """-> (max vector length, value mode) or None"""
+    q = tier == "quick"
+    if vkind_ == "l":
+        if n <= 3:
+            return 3, "std"
+        if n == 4:
+            return 3, ("scnd" if q else "std")
+        if n == 5:
+            return (2, "scnd") if q else (3, "lite")
+        return 2, "lite"
+    if vkind_ == "a":
+        if n <= 3:
+            return 2 if q else 3, "std"
+        if n <= 5:
+            return (2, "scnd") if q else (3, "scnd")
+        return None
+    if vkind_ == "d":
+        if n <= 3:
+            return 2 if q else 3, "lite"
+        if n == 4:
+            return (2, "scnd") if q else (3, "lite")
+        if n == 5:
+            return None if q else (2, "lite")
+        return None
+    raise ValueError(vkind_)
+
+
 def shards(tier):
     n = NMAX[tier]
     out = []
     for k in range(0, n + 1):
-        parts = 1 if k <= 2 else (4 if k == 3 else 16)
+        parts = 1 if k <= 2 else (4 if k == 3 else (16 if k <= 5 else 32))
         for p in range(parts):
             out.append(("slice1", k, p, parts))
         out.append(("int1", k))
     for k in range(1, n + 1):
-        parts = 1 if k <= 2 else (2 if k == 3 else 8)
         for kind in ("l", "a", "d"):
+            if vec_plan(k, kind, tier) is None:
+                continue
+            parts = 1 if k <= 2 else (2 if k == 3 else 8)
             for p in range(parts):
                 out.append(("vec1", k, kind, p, parts))
-    for k in range(0, n + 1):
-        parts = 1 if k <= 3 else 4
+    for k in range(0, min(n, 6) + 1):
+        parts = 1 if k <= 3 else (4 if k == 4 else 8)
         for p in range(parts):
             out.append(("mask1", k, p, parts))
     shapes = [(2, 3), (3, 2)] + ([(3, 4)] if tier == "thorough" else [])
@@ -216,7 +263,7 @@ def shards(tier):
     return out
 
 
-def axis_alphabet(n, chunks):
+def axis_alphabet(n, chunks, tier):
     """per-axis index alphabet hitting every chunk edge, both step signs"""
     edges = sorted({0, n} | set(np.cumsum(chunks).tolist()))
     ints = sorted({0, n - 1, -1, -n} & set(range(-n, n)))
@@ -233,9 +280,10 @@ def axis_alphabet(n, chunks):
     for e in edges:
         sls.add(("s", e, None, None))
         sls.add(("s", None, e, None))
-        sls.add(("s", max(e - 1, 0), e + 1, None))
         sls.add(("s", e, None, -1))
         sls.add(("s", None, e, -1))
+        if tier == "thorough":
+            sls.add(("s", max(e - 1, 0), e + 1, None))
     alt = tuple(bool((i + 1) % 2) for i in range(n))  # True, False, True ...
     lists = [
         ("l", (n - 1, 0)),
@@ -244,22 +292,26 @@ def axis_alphabet(n, chunks):
         ("bl", alt),
         ("b", tuple(not b for b in alt)),
         ("d", (n - 1, 0), 1),
-        ("db", alt, (n,)),
-        ("db", alt, (1,) * n),
+        ("db", alt, ((1,) * n,)),
     ]
+    if tier == "thorough":
+        lists.append(("db", alt, ((n,),)))
     return ints, sorted(sls, key=repr), lists
 
 
-def level_1d(n, tier):
-    full = 4 if tier == "quick" else 5
-    return 2 if n <= full else 0
+FULL = ("s", None, None, None)
+
+
+def is_dask_item(t):
+    return isinstance(t, tuple) and t[0] in ("d", "db", "dw", "db2")
 
 
 def cases_of(shard, tier):
     kind = shard[0]
+    q = tier == "quick"
     if kind == "slice1":
         n, part, nparts = shard[1], shard[2], shard[3]
-        lvl = level_1d(n, tier)
+        mode = slice_mode(n, tier)
         j = 0
         for ch in enums.compositions(n) if n else [(0,)]:
             for a, b, s in enums.slices(n):
@@ -268,46 +320,42 @@ def cases_of(shard, tier):
                     continue
                 ix = (("s", a, b, s),)
                 tshape = target_shape((n,), ix)
-                for vk in value_kinds(tshape, lvl, self_ok=lvl == 2):
+                for vk in value_kinds(tshape, mode, self_ok=True):
                     yield ("slice1", (n,), (ch,), ix, True, vk)
             # the implicit-tuple / Ellipsis spellings of the same assignment
             if part == 0:
-                for ix in ((("s", None, None, None), ), ("...",), ("...", ("s", 1, None, None)), (("s", None, -1, None), "...")):
+                for ix in ((FULL,), ("...",), ("...", ("s", 1, None, None)), (("s", None, -1, None), "..."), (("s", None, None, -1), "...")):
                     tshape = target_shape((n,), ix)
-                    for vk in value_kinds(tshape, 1):
+                    for vk in value_kinds(tshape, "std"):
                         yield ("slice1", (n,), (ch,), ix, False, vk)
     elif kind == "int1":
         n = shard[1]
         for ch in enums.compositions(n) if n else [(0,)]:
             for i in range(-n - 1, n + 1):
                 tshape = target_shape((n,), (i,))
-                for vk in value_kinds(tshape, 2):
+                for vk in value_kinds(tshape, "full"):
                     yield ("int1", (n,), (ch,), (i,), True, vk)
     elif kind == "vec1":
-        n, vkind, part, nparts = shard[1], shard[2], shard[3], shard[4]
-        full = 4 if tier == "quick" else 5
-        maxlen = 3 if n <= full else 2
-        lvl = 1 if n <= 3 else 0
+        n, vkind_, part, nparts = shard[1], shard[2], shard[3], shard[4]
+        maxlen, mode = vec_plan(n, vkind_, tier)
         j = 0
         for ch in enums.compositions(n):
             for v in enums.index_vectors(n, maxlen):
                 j += 1
                 if j % nparts != part:
                     continue
-                if vkind == "d":
-                    ixs = [("d", tuple(v), 1)] + ([("d", tuple(v), len(v))] if len(v) >= 2 else [])
+                if vkind_ == "d":
+                    ixs = [("d", tuple(v), 1)] + ([("d", tuple(v), len(v))] if len(v) >= 2 and (n <= 3 or not q) else [])
                 else:
-                    ixs = [(vkind, tuple(v))]
+                    ixs = [(vkind_, tuple(v))]
                 for it in ixs:
                     ix = (it,)
                     tshape = target_shape((n,), ix)
-                    vks = value_kinds(tshape, lvl)
-                    if lvl == 0 and len(v):
-                        vks = vks + [("da", ((1,) * len(v),))]
-                    for vk in vks:
+                    for vk in value_kinds(tshape, mode):
                         yield ("vec1", (n,), (ch,), ix, True, vk)
     elif kind == "mask1":
         n, part, nparts = shard[1], shard[2], shard[3]
+        small = n <= (4 if q else 5)
         j = 0
         for ch in enums.compositions(n) if n else [(0,)]:
             for m in enums.masks(n):
@@ -315,61 +363,75 @@ def cases_of(shard, tier):
                 if j % nparts != part:
                     continue
                 m = tuple(m)
-                forms = [(("bl", m), True), (("b", m), True), (("b", m), False)]
+                forms = [(("bl", m), True, "std"), (("b", m), True, "std"), (("b", m), False, "std")]
                 if n:
-                    for mch in sorted({ch, (n,), (1,) * n}):
-                        forms.append((("db", m, (mch,)), True))  # bare dask mask: where() path
-                        forms.append((("db", m, (mch,)), False))  # in a tuple: setitem_array path
-                    forms.append((("dw", m, (ch,)), True))
-                for it, bare in forms:
+                    for mch in sorted({ch, (n,), (1,) * n}) if small else [ch]:
+                        forms.append((("db", m, (mch,)), True, "scnd"))  # bare dask mask: where() path
+                        forms.append((("db", m, (mch,)), False, "std" if small else "scnd"))  # in a tuple: setitem_array path
+                    if small:
+                        forms.append((("dw", m, (ch,)), True, "scnd"))
+                for it, bare, mode in forms:
                     if it[0] == "bl" and n == 0:
                         continue  # x[[]] is an empty INTEGER index in NumPy
                     ix = (it,)
                     tshape = target_shape((n,), ix)
-                    for vk in value_kinds(tshape, 1):
+                    vks = value_kinds(tshape, mode)
+                    if it[0] == "db" and bare:
+                        vks = vks + ["z0", "b1"]  # where() path: 0-d array accepted, ndim > 0 refused
+                    for vk in vks:
                         yield ("mask1", (n,), (ch,), ix, bare, vk)
     elif kind in ("tuple2", "tuple3"):
         shp, part, nparts = shard[1], shard[2], shard[3]
-        lvl = 1
         j = 0
         for ch in enums.chunkings(shp):
             alph = []
             for n, c in zip(shp, ch):
-                ints, sls, lists = axis_alphabet(n, c)
+                ints, sls, lists = axis_alphabet(n, c, tier)
                 if kind == "tuple3":
                     sls = sls[::3]
                     lists = lists[:2] + lists[3:4] + lists[6:7]
                 alph.append(ints + sls + lists)
-            tuples = []
+            tuples = []  # (index, bare, value mode)
             if kind == "tuple2":
                 for i0 in alph[0]:
-                    tuples.append(((i0,), True))
-                    tuples.append(((i0,), False))
-                    tuples.append(((i0, "..."), False))
+                    m1 = "lite" if (q and is_dask_item(i0)) else "std"
+                    tuples.append(((i0,), True, m1))
+                    tuples.append(((i0,), False, m1))
+                    tuples.append(((i0, "..."), False, m1))
+                    tuples.append(((i0, FULL), False, m1))
                     for i1 in alph[1]:
-                        tuples.append(((i0, i1), False))
+                        if i1 == FULL:
+                            continue
+                        if not q:
+                            mode = "std"
+                        elif i0 == FULL:
+                            mode = "lite" if is_dask_item(i1) else "std"
+                        else:
+                            mode = "scnd"
+                        tuples.append(((i0, i1), False, mode))
                 for i1 in alph[1]:
-                    tuples.append((("...", i1), False))
+                    tuples.append((("...", i1), False, "lite" if (q and is_dask_item(i1)) else "std"))
                 # np.newaxis in an assignment index (NumPy-legal): a small sub-alphabet
                 for i1 in alph[1][:: max(1, len(alph[1]) // 6)]:
-                    tuples.append((("None", 0, i1), False))
-                    tuples.append(((("s", None, None, None), "None", i1), False))
+                    tuples.append((("None", 0, i1), False, "sc"))
+                    tuples.append(((FULL, "None", i1), False, "sc"))
             else:
                 for ix in itertools.product(*alph):
-                    tuples.append((ix, False))
+                    tuples.append((ix, False, "std" if sum(1 for t in ix if t == FULL) >= 1 else "scnd"))
                 for i0 in alph[0]:
-                    tuples.append(((i0, "...", 0), False))
-                    tuples.append((("...", i0), False))
-            for ix, bare in tuples:
+                    tuples.append(((i0, "...", 0), False, "std"))
+                    tuples.append((("...", i0), False, "std"))
+            for ix, bare, mode in tuples:
                 j += 1
                 if j % nparts != part:
                     continue
                 if sum(1 for t in ix if is_arrayish(t)) > 1 and j % 7:
                     continue  # >= 2 array-like axes: documented refusal; keep a seventh of them to see that it does refuse
                 tshape = target_shape(shp, ix)
-                for vk in value_kinds(tshape, lvl if kind == "tuple2" else 1):
-                    if "None" in ix and vk != "sc":
-                        continue
+                vks = ["sc"] if mode == "sc" else value_kinds(tshape, mode)
+                if mode == "scnd" and tshape is not None and len(tshape) == 2 and tshape[0] >= 1 and 0 not in tshape:
+                    vks = vks + ["row"]
+                for vk in vks:
                     yield (kind, shp, tuple(ch), ix, bare, vk)
     elif kind == "mask2":
         shp, part, nparts = shard[1], shard[2], shard[3]
@@ -391,8 +453,49 @@ def cases_of(shard, tier):
 
 
 # ----------------------------------------------------------------------------------------------- one case
+NONBROADCAST = ("nd", "x1", "da", "self")
+ARRAYVALUED = ("nd", "x1", "da", "self", "row", "bc", "dabc")
+
+
+def vkind(vk):
+    return vk if isinstance(vk, str) else vk[0]
+
+
+def where_path(case):
+    """x[<dask bool array with x's dimensionality>] = v is implemented with where(), not setitem_array"""
+    kind, shp, ch, index, bare, vk = case
+    return bare and len(index) == 1 and isinstance(index[0], tuple) and index[0][0] in ("db", "db2") and np.ndim(np_index(index[0])) == len(shp)
+
+
 def known_class(case):
-    """narrow input classes of recorded findings (C21.findings.json); appended to the finding key"""
+    """narrow input classes of the recorded findings (C21.findings.json); the class replaces the case kind in the finding key,
+    so any OTHER failure on the same inputs, and the same failure on other inputs, still has a different key"""
+    kind, shp, ch, index, bare, vk = case
+    vkd = vkind(vk)
+    if "None" in index:
+        return "newaxis-index"
+    if where_path(case):
+        if tuple(index[0][2]) != tuple(ch):
+            return "where-path-mask-chunks-differ"
+        return None
+    ints = [i for i, t in enumerate(index) if isinstance(t, int)]
+    if vkd == "x1" and ints:
+        return "extra-leading-axis-value+int-index"
+    negs = [i for i, t in enumerate(index) if isinstance(t, tuple) and t[0] == "s" and t[3] is not None and t[3] < 0]
+    if ints and negs and min(ints) < max(negs):
+        return "int-before-negstep-slice"
+    intarrs = [i for i, t in enumerate(index) if isinstance(t, tuple) and t[0] in ("l", "a", "d", "bl", "dw")]
+    if ints and intarrs and min(ints) < max(intarrs) and vkd in NONBROADCAST:
+        return "int-before-index-array"
+    if any(isinstance(t, tuple) and t[0] == "db" for t in index) and vkd in ("b1", "bc", "row", "dabc"):
+        return "dask-bool-index+broadcast-value"
+    tshape = target_shape(shp, index)
+    if tshape is not None and 0 in tshape and vkd in ARRAYVALUED:
+        axes = [t for t in index if t != "..."]
+        for t, n in zip(axes, shp):
+            if isinstance(t, tuple) and t[0] == "s" and t[3] is not None and t[3] < 0 and len(range(*slice(t[1], t[2], t[3]).indices(n))) == 0:
+                return "empty-negstep-slice+empty-value"
+        return "empty-selection+empty-value"
     return None
 
 
@@ -404,11 +507,10 @@ def refusal(e, case, v_da):
     msg = str(e)
     if isinstance(e, IndexError) and msg.startswith("Incorrect shape") and any(isinstance(t, tuple) and t[0] == "b2" for t in index):
         return True
-    if isinstance(e, ValueError) and bare and len(index) == 1 and isinstance(index[0], tuple) and index[0][0] in ("db", "db2"):
-        # x[<dask bool array of x's shape>] = value goes through where(); documented in Array.__setitem__: values with
-        # ndim > 0 raise because the number of selected cells is unknown
-        if np.ndim(v_da) > 0 and len(shp) == np.ndim(np_index(index[0])):
-            return True
+    if isinstance(e, (ValueError, TypeError)) and where_path(case) and np.ndim(v_da) > 0:
+        # x[<dask bool array of x's dimensionality>] = value goes through where(); documented in Array.__setitem__: a value
+        # with ndim > 0 raises because the number of selected cells is unknown ("valid in numpy but raises here")
+        return True
     return False
 
 
@@ -445,6 +547,8 @@ def run_case(case, ctx):
 
     sub = known_class(case)
     suffix = f":{sub}" if sub else ""
+    if sub:
+        kind = "setitem"
     got = problem = d_exc = None
     try:
         dix = tuple(da_index(t) for t in index)
